@@ -30,6 +30,9 @@ def slice_scn(scn, axis, keep):
         if s.get("time_chunks"):
             n = len(keep)
             s["time_chunks"] = [n // 2, n - n // 2] if n >= 2 else None
+    if (scn.get("pair") or {}).get("share_cube"):
+        # the second result hangs off the same cube: it is cut the same way
+        s["pair"] = slice_scn(scn["pair"], axis, keep)
     return s
 
 
